@@ -8,6 +8,7 @@ Part 1 (this file, first half): `Copyable.copy` and its overrides on the heap mo
 PROPERTY theorems are marked.  Core Lean only.
 -/
 import MenpoModel.Lemmas.C06Fresh
+import MenpoModel.Lemmas.C06Total
 import MenpoModel.Lemmas.C06Landmarks
 
 namespace MenpoModel.C06
@@ -125,6 +126,41 @@ theorem writes_through_copy_invisible_in_original (tbl : AttrTable) (sup : Suppl
   have hlt := hind.2 b r
   exact hagree b (Nat.lt_of_lt_of_le hlt bs.ext.len) (fun o => absurd (hind.1 b o) (Nat.not_le.mpr hlt))
 
+theorem closed_of_closedB {h : Heap} (hb : closedB h = true) : Closed h := by
+  intro a k fs hcell x b m
+  have := List.all_eq_true.mp hb _ (List.mem_of_getElem? hcell)
+  simp only at this
+  have := List.all_eq_true.mp this (x, .ref b) m
+  simpa using this
+
+theorem ordered_of_orderedB {h : Heap} (hb : orderedB h = true) : Ordered h := by
+  intro a k fs hcell x b m
+  have ha : a < h.length := get_lt hcell
+  have := List.all_eq_true.mp hb a (List.mem_range.mpr ha)
+  simp only [hcell] at this
+  have := List.all_eq_true.mp this (x, .ref b) m
+  simpa using this
+
+/-- PROPERTY (totality): `o.copy()` returns an object.  For every closed, ordered (acyclic) heap
+conforming to tables that satisfy `copyWF` and whose classes all resolve to a modelled `copy`
+(the two regenerated obligations), the copy of the object at address `a` succeeds with fuel
+`a + 2`; so `copy_equal` and `copy_independent` apply to every such object. -/
+theorem copy_total (tbl : AttrTable) (sup : SupplierTable) (hwf : copyWF tbl sup = true)
+    (hknown : tbl.all (fun row => resOf sup row.1 != .unknown) = true)
+    (h : Heap) (hc : Closed h) (ho : Ordered h) (hwt : wtHeap tbl sup h = true)
+    (a : Nat) (C : String) (fs : Slots) (hobj : h[a]? = some (.node (.obj C) fs)) (n : Nat) (hn : a + 2 ≤ n) :
+    ∃ h' v', copyCall (resOf sup) n h (.ref a) = .ok (h', v') := by
+  apply copy_succeeds (resOf sup) h hc ho (deepHeap_of_tables hwf hwt) ?_ a C fs hobj n hn
+  intro a' C' fs' hcell
+  have hmem : Cell.node (.obj C') fs' ∈ h := List.mem_of_getElem? hcell
+  have hcw := List.all_eq_true.mp hwt _ hmem
+  simp only [wtCell, Bool.and_eq_true] at hcw
+  cases hl : tbl.lookup C' with
+  | none => simp [hl] at hcw
+  | some attrs =>
+    have := List.all_eq_true.mp hknown (C', attrs) (lookup_mem_gen hl)
+    simpa using this
+
 /-! ### non-vacuity and teeth of part 1 -/
 
 /-- a 2-D point cloud with one landmark group, held by an alignment, inside a chain -/
@@ -152,6 +188,7 @@ def exHeap : Heap :=
 example : copyWF exTbl exSup = true := by decide
 example : wtHeap exTbl exSup exHeap = true := by decide
 example : closedB exHeap = true := by decide
+example : orderedB exHeap = true := by decide
 /-- the landmarked cloud: six new cells, nothing shared -/
 example : (copyCall (resOf exSup) 5 exHeap (.ref 5)).toOption.map (fun r => (r.1.length, r.2)) = some (17, .ref 16) := by
   decide
